@@ -4,6 +4,7 @@
 #include <fips202.h>
 #include <stdio.h>
 #include <string.h>
+#include <verif_sign_hooks.h>
 
 #define RESPONSE_LENGTH TORSION_PLUS_EVEN_POWER + 16
 
@@ -278,6 +279,9 @@ sample_response(quat_alg_elem_t *x,
         first_zero_index = 4;
     }
 
+#ifdef SQISIGN_SQISIGN2D_WEST_AC24_VERIF
+    int verif_h1_rounds = verif_env_int("SQI_VERIF_H1_TRIES", 10);
+#endif
     // TODO make this a proper constant of the scheme
     // loop to find a correct answer
     while (!found && count < 50) {
@@ -300,6 +304,26 @@ sample_response(quat_alg_elem_t *x,
             ibz_mat_4x4_eval(&(x->coord), &lll, &vec);
             assert(quat_lattice_contains(NULL, lattice, x, &QUATALG_PINFTY));
         }
+#ifdef SQISIGN_SQISIGN2D_WEST_AC24_VERIF
+        /* H1 response steering: only rejects candidates (see verif_sign_hooks.h) */
+        if (found && verif_h1_active() && !verif_h1_precheck((int)mpz_scan1(norm, 0)))
+            found = 0;
+        if (found && verif_h1_active()) {
+            ibz_t verif_content;
+            ibz_vec_4_t verif_coord;
+            ibz_init(&verif_content);
+            ibz_vec_4_init(&verif_coord);
+            quat_alg_make_primitive(&verif_coord, &verif_content, x, &MAXORD_O0, &QUATALG_PINFTY);
+            int verif_bt = (int)mpz_scan1(verif_content, 0);
+            int verif_v2 = (int)mpz_scan1(norm, 0) - verif_bt;
+            if (!verif_h1_accept(verif_v2, verif_bt))
+                found = 0;
+            ibz_finalize(&verif_content);
+            ibz_vec_4_finalize(&verif_coord);
+        }
+        if (!found && count == 49 && verif_h1_active() && verif_h1_rounds-- > 0)
+            count = -1;
+#endif
 
         count++;
     }
@@ -428,8 +452,34 @@ protocols_sign(signature_t *sig,
     ibz_vec_2_init(&vec_chall);
     ibz_vec_2_init(&vec_resp_two);
 
+#ifdef SQISIGN_SQISIGN2D_WEST_AC24_VERIF
+    /* H1: with SQI_VERIF_H1_REUSE_COMMIT=1 the first commitment of the process is kept and used again by
+       later calls (the harness then varies the message to get a new challenge, hence a new response
+       lattice, without paying for a new commitment) */
+    static int verif_com_cached = 0;
+    static ec_curve_t verif_com_E;
+    static ec_basis_t verif_com_B;
+    static quat_left_ideal_t verif_com_I;
+    if (verif_env_int("SQI_VERIF_H1_REUSE_COMMIT", 0) && verif_com_cached) {
+        E_com = verif_com_E;
+        Bcom0 = verif_com_B;
+        quat_left_ideal_copy(&lideal_commit, &verif_com_I);
+        goto verif_commit_done;
+    }
+#endif
     // computing the commitment
     commit(&E_com, &Bcom0, &lideal_commit);
+#ifdef SQISIGN_SQISIGN2D_WEST_AC24_VERIF
+    if (verif_env_int("SQI_VERIF_H1_REUSE_COMMIT", 0)) {
+        if (!verif_com_cached)
+            quat_left_ideal_init(&verif_com_I);
+        verif_com_E = E_com;
+        verif_com_B = Bcom0;
+        quat_left_ideal_copy(&verif_com_I, &lideal_commit);
+        verif_com_cached = 1;
+    }
+verif_commit_done:;
+#endif
 
 
     // computing the challenge
@@ -489,6 +539,12 @@ protocols_sign(signature_t *sig,
     // degree_full_resp is smaller than 60
     exp_diadic_val_full_resp = two_adic_valuation(ibz_get(&degree_full_resp));
     assert(exp_diadic_val_full_resp < 60);
+#ifdef SQISIGN_SQISIGN2D_WEST_AC24_VERIF
+    /* H1: the response that was sampled does not meet the steering: give up with the hook-only
+       code -1 (the harness calls again; no clean-up on this hook-only path) */
+    if (verif_h1_active() && !verif_h1_accept(exp_diadic_val_full_resp, backtracking))
+        return -1;
+#endif
     // removing the power of two part
     ibz_pow(&tmp, &ibz_const_two, exp_diadic_val_full_resp);
     ibz_div(&degree_odd_resp, &remain, &degree_full_resp, &tmp);
